@@ -203,6 +203,7 @@ func (r *Run) RunCase(c Case) []string {
 		b, _ := json.Marshal(map[string]any{"lines": cc.Lines, "kind": cc.Kind})
 		_ = os.WriteFile(r.CrashLog, b, 0o644)
 	}
+	t0 := time.Now()
 	e := r.H.NewExec(r)
 	outs := make([]string, len(cc.Lines))
 	if !cc.NoModel {
@@ -225,6 +226,8 @@ func (r *Run) RunCase(c Case) []string {
 	r.Ops += len(cc.Lines)
 	if cc.Kind != "" {
 		r.Dist["kind:"+cc.Kind]++
+		// measured wall time per case kind (milliseconds, cases run one after the other): where the budget goes
+		r.Dist["wall_ms:"+cc.Kind] += int(time.Since(t0).Milliseconds())
 	}
 	if cc.NonTrivial {
 		h := fnv.New64a()
